@@ -37,10 +37,10 @@ package main
 
 import (
 	"bytes"
-	"encoding/json"
 	"context"
 	"database/sql"
 	"database/sql/driver"
+	"encoding/json"
 	"errors"
 	"fmt"
 	"io"
@@ -102,7 +102,7 @@ type plan struct {
 	complete int
 }
 
-func noFault() *plan { return &plan{CrashFS: -1, Torn: -1, CrashSQL: -1, FailFS: -1, Label: "none"} }
+func noFault() *plan          { return &plan{CrashFS: -1, Torn: -1, CrashSQL: -1, FailFS: -1, Label: "none"} }
 func (p *plan) isCrash() bool { return p.CrashFS >= 0 || p.CrashSQL >= 0 }
 func (p *plan) reset() {
 	p.fired, p.hotDel, p.complete = map[int]bool{}, map[string]int{}, 0
@@ -289,7 +289,9 @@ func (c *gateConn) BeginTx(ctx context.Context, o driver.TxOptions) (driver.Tx, 
 	ev.Unbound("the tier metadata store started a transaction; the C12 SQL gate models auto-commit statements only")
 	return nil, nil
 }
-func (c *gateConn) Begin() (driver.Tx, error) { return c.BeginTx(context.Background(), driver.TxOptions{}) }
+func (c *gateConn) Begin() (driver.Tx, error) {
+	return c.BeginTx(context.Background(), driver.TxOptions{})
+}
 func (c *gateConn) PrepareContext(ctx context.Context, q string) (driver.Stmt, error) {
 	s, err := c.SQLiteConn.PrepareContext(ctx, q)
 	if err != nil {
@@ -297,7 +299,9 @@ func (c *gateConn) PrepareContext(ctx context.Context, q string) (driver.Stmt, e
 	}
 	return &gateStmt{s.(*sqlite3.SQLiteStmt), q}, nil
 }
-func (c *gateConn) Prepare(q string) (driver.Stmt, error) { return c.PrepareContext(context.Background(), q) }
+func (c *gateConn) Prepare(q string) (driver.Stmt, error) {
+	return c.PrepareContext(context.Background(), q)
+}
 
 type gateStmt struct {
 	*sqlite3.SQLiteStmt
@@ -555,24 +559,60 @@ func tierCfg() *config.TieredStorageConfig {
 
 // proc = one process lifetime: SQLite handle, two LocalBackends (fresh directory caches), the Manager.
 type proc struct {
-	e   *env
-	db  *sql.DB
-	mgr *tiering.Manager
+	e    *env
+	db   *sql.DB
+	mgr  *tiering.Manager
+	live *api.QueryHandler // the process's own long-lived QueryHandler (nil when the cold backend is wrapped)
 }
 
-func newProc(e *env) *proc {
+// newProc starts a "process". Its QueryHandler is wired like cmd/arc wires it: storage = the hot LocalBackend,
+// SetTieringManager(the Manager that runs the migrations). The cold backend is wrapped for step-failure
+// injection only when the plan needs cold-side failures (storage.GetStoragePath needs the concrete
+// *LocalBackend to build the cold glob, so such a process has no long-lived handler observer).
+func newProc(e *env, wrapCold ...bool) *proc {
 	db, err := sql.Open("verif_c12_sqlite3", e.dbPath+"?_journal_mode=WAL&_busy_timeout=5000")
 	must(err, "sql.Open")
 	hot, err := storage.NewLocalBackend(e.hotRoot, zerolog.Nop())
 	must(err, "NewLocalBackend(hot)")
 	cold, err := storage.NewLocalBackend(e.coldRoot, zerolog.Nop())
 	must(err, "NewLocalBackend(cold)")
-	mgr, err := tiering.NewManager(&tiering.ManagerConfig{HotBackend: &faultBackend{hot, "hot"}, ColdBackend: &faultBackend{cold, "cold"},
+	var coldB storage.Backend = cold
+	if len(wrapCold) > 0 && wrapCold[0] {
+		coldB = &faultBackend{cold, "cold"}
+	}
+	mgr, err := tiering.NewManager(&tiering.ManagerConfig{HotBackend: &faultBackend{hot, "hot"}, ColdBackend: coldB,
 		DB: db, Config: tierCfg(), LicenseClient: license.VerifTieringClient(), Logger: zerolog.Nop()})
 	if err != nil {
 		ev.Unbound("tiering.NewManager cannot be constructed: " + err.Error())
 	}
-	return &proc{e, db, mgr}
+	p := &proc{e: e, db: db, mgr: mgr}
+	if coldB == storage.Backend(cold) {
+		p.live = api.NewQueryHandler(duck, hot, zerolog.Nop(), 0, 0)
+		p.live.SetTieringManager(mgr)
+	}
+	return p
+}
+
+// warm: a client of the running process issues the statement (dashboards repeat the same statement text)
+func (p *proc) warm() {
+	if p.live != nil {
+		p.live.VerifC12TransformSQL(context.Background(), e2stmt(p.e), "")
+	}
+}
+
+// liveObserve judges visibility through the process's own long-lived handler (same statement text again)
+func (p *proc) liveObserve(base *obs) *obs {
+	if p.live == nil {
+		return nil
+	}
+	o := &obs{Files: map[string]*fileObs{}}
+	for r, x := range base.Files {
+		c := *x
+		c.Seen, c.Rows, c.Distinct = 0, 0, 0
+		o.Files[r] = &c
+	}
+	evalWith(p.live, p.e, o, "")
+	return o
 }
 
 func (p *proc) cycle(pl *plan) cycleLog {
@@ -658,8 +698,6 @@ func observe(e *env) *obs {
 		}
 		o.Files[f.Role] = x
 	}
-	tA := time.Now()
-	defer func() { tObs += time.Since(tA) }()
 	h := api.NewQueryHandler(duck, hot, zerolog.Nop(), 0, 0)
 	h.SetTieringManager(mgr)
 	expr := h.VerifC12ExprForMeasurement(ctx, dbName, meas, "SELECT * FROM "+meas, "FROM")
@@ -667,9 +705,36 @@ func observe(e *env) *obs {
 	if expr != direct {
 		ev.Unbound(fmt.Sprintf("buildReadParquetExprForMeasurement does not route through buildMultiTierReadParquet: %q vs %q", expr, direct))
 	}
-	o.Expr = expr
-	// file level: DuckDB's own glob over exactly the paths of the expression
-	for _, m := range lit.FindAllStringSubmatch(expr, -1) {
+	evalWith(h, e, o, expr)
+	return o
+}
+
+func e2stmt(e *env) string {
+	var sel []string
+	for _, f := range e.files {
+		sel = append(sel, fmt.Sprintf("count(*) FILTER (WHERE id BETWEEN %d AND %d), count(DISTINCT id) FILTER (WHERE id BETWEEN %d AND %d)",
+			f.FirstID, f.FirstID+f.NRows-1, f.FirstID, f.FirstID+f.NRows-1))
+	}
+	return "SELECT count(*), " + strings.Join(sel, ", ") + " FROM " + dbName + "." + meas
+}
+
+// evalWith asks handler h for the transformed statement (the real table-reference -> read_parquet conversion,
+// through the handler's transform cache like every request) and evaluates it in DuckDB: file level = glob()
+// over exactly the path literals of the statement, row level = the statement itself (parquet layouts).
+func evalWith(h *api.QueryHandler, e *env, o *obs, wantExpr string) {
+	tA := time.Now()
+	defer func() { tObs += time.Since(tA) }()
+	tr := h.VerifC12TransformSQL(context.Background(), e2stmt(e), "")
+	if !strings.Contains(tr, "read_parquet(") && !strings.Contains(tr, "WHERE 1=0") {
+		ev.Unbound(fmt.Sprintf("the statement transform produced no read_parquet expression: %q", tr))
+	}
+	if wantExpr != "" && !strings.Contains(tr, strings.TrimPrefix(wantExpr, "FROM ")) {
+		ev.Unbound(fmt.Sprintf("the statement transform of a fresh handler does not use the multi-tier expression: %q", tr))
+	}
+	o.Expr = strings.ReplaceAll(tr[strings.Index(tr, " FROM ")+1:], e.dir, "")
+	var matched []string
+	memoOK := true
+	for _, m := range lit.FindAllStringSubmatch(tr, -1) {
 		p := strings.ReplaceAll(m[1], "''", "'")
 		rows, err := duck.DB().Query("SELECT file FROM glob('" + strings.ReplaceAll(p, "'", "''") + "')")
 		if err != nil {
@@ -678,41 +743,64 @@ func observe(e *env) *obs {
 		for rows.Next() {
 			var file string
 			rows.Scan(&file)
+			tier := "hot"
+			if strings.HasPrefix(file, e.coldRoot+"/") {
+				tier = "cold"
+			}
 			rel := strings.TrimPrefix(strings.TrimPrefix(file, e.hotRoot+"/"), e.coldRoot+"/")
 			if r := e.roleOf(rel); r != "" {
 				o.Files[r].Seen++
+				status := o.Files[r].Hot
+				if tier == "cold" {
+					status = o.Files[r].Cold
+				}
+				if status != "ok" {
+					memoOK = false
+				}
+				matched = append(matched, tier+":"+rel)
 			} else {
 				o.Unexpected = append(o.Unexpected, file[len(e.dir):])
+				memoOK = false
 			}
 		}
 		rows.Close()
 	}
 	sort.Strings(o.Unexpected)
 	if e.lay.Size == "1B" {
-		return o
+		return
 	}
-	// row level: the real statement transform, executed
-	var sel []string
-	for _, f := range e.files {
-		sel = append(sel, fmt.Sprintf("count(*) FILTER (WHERE id BETWEEN %d AND %d), count(DISTINCT id) FILTER (WHERE id BETWEEN %d AND %d)",
-			f.FirstID, f.FirstID+f.NRows-1, f.FirstID, f.FirstID+f.NRows-1))
-	}
-	stmt := "SELECT count(*), " + strings.Join(sel, ", ") + " FROM " + dbName + "." + meas
-	tr := h.VerifC12TransformSQL(ctx, stmt, "")
-	if !strings.Contains(tr, strings.TrimPrefix(expr, "FROM ")) {
-		ev.Unbound(fmt.Sprintf("the statement transform does not use the multi-tier expression: %q", tr))
-	}
-	dst := make([]any, 1+2*len(e.files))
-	vals := make([]int64, len(dst))
-	for i := range dst {
-		dst[i] = &vals[i]
-	}
-	tB := time.Now()
-	err = duck.DB().QueryRow(tr).Scan(dst...)
-	tRow += time.Since(tB)
-	if err != nil {
-		o.QueryErr = strings.ReplaceAll(err.Error(), e.dir, "")
-		return o
+	// The answer of the statement is a function of the statement and of the bytes of the files its globs match.
+	// A statement that differs from an already executed one only in the scratch directory name, over a matched
+	// file set that is byte-identical (every matched file verified complete by observe), is not executed again.
+	sort.Strings(matched)
+	memoKey := e.lay.String() + "|" + strings.ReplaceAll(tr, e.dir, "") + "|" + strings.Join(matched, ",")
+	vals := make([]int64, 1+2*len(e.files))
+	if mv, ok := rowMemo[memoKey]; ok && memoOK {
+		st.rowMemoHits++
+		if mv.err != "" {
+			o.QueryErr = mv.err
+			return
+		}
+		copy(vals, mv.vals)
+	} else {
+		dst := make([]any, len(vals))
+		for i := range dst {
+			dst[i] = &vals[i]
+		}
+		st.rowQueries++
+		if err := duck.DB().QueryRow(tr).Scan(dst...); err != nil {
+			o.QueryErr = strings.ReplaceAll(err.Error(), e.dir, "")
+			if i := strings.IndexByte(o.QueryErr, '\n'); i >= 0 { // DuckDB appends a "LINE 1: ..." excerpt
+				o.QueryErr = o.QueryErr[:i]
+			}
+			if memoOK {
+				rowMemo[memoKey] = memoVal{err: o.QueryErr}
+			}
+			return
+		}
+		if memoOK {
+			rowMemo[memoKey] = memoVal{vals: append([]int64{}, vals...)}
+		}
 	}
 	sum := int64(0)
 	for i, f := range e.files {
@@ -722,7 +810,6 @@ func observe(e *env) *obs {
 	if sum != vals[0] {
 		o.QueryErr = fmt.Sprintf("the query returned %d rows that belong to no file of the layout", vals[0]-sum)
 	}
-	return o
 }
 
 // ------------------------------------------------------------------ oracles
@@ -746,11 +833,21 @@ type judge struct {
 	bad    int
 }
 
+func (j *judge) seen(f fileSpec, x *fileObs) string {
+	if j.e.lay.Size == "1B" {
+		return fmt.Sprintf("file %s is matched %d times by the globs of the expression", f.Role, x.Seen)
+	}
+	return fmt.Sprintf("file %s is matched %d times by the globs of the expression; the statement returns %d rows (%d distinct) of its %d rows", f.Role, x.Seen, x.Rows, x.Distinct, f.NRows)
+}
+
 func (j *judge) violate(oracle, phase, detail string, o *obs) {
 	j.bad++
 	f := append([]string{}, j.faults...)
 	cls := "after-recovery"
 	switch {
+	case strings.HasPrefix(oracle, "long-running-handler"):
+		// the handler of the process that ran the cycle: "the cycle has finished" is the only phase there is
+		cls = "after-a-finished-cycle"
 	case strings.HasPrefix(phase, "crash-state"):
 		cls = "at-crash-state"
 	case strings.HasPrefix(phase, "faulty-cycle-finished"):
@@ -762,35 +859,43 @@ func (j *judge) violate(oracle, phase, detail string, o *obs) {
 }
 
 // intermediate: a crash state or the state a finished faulty cycle leaves
-func (j *judge) intermediate(o *obs, phase string) {
+// who = "" (a freshly started arc looks at the state) or "long-running-handler:" (the QueryHandler of the
+// process that ran the cycle repeats the statement it served before the cycle)
+func (j *judge) intermediate(o *obs, phase, who string) {
+	if o == nil {
+		return
+	}
 	for _, f := range j.e.files {
 		x := o.Files[f.Role]
-		if x.Hot != "ok" && x.Cold != "ok" {
+		if who == "" && x.Hot != "ok" && x.Cold != "ok" {
 			j.violate("content-unreadable", phase, fmt.Sprintf("no tier holds the complete content of %s (hot=%s cold=%s)", f.Role, x.Hot, x.Cold), o)
 		}
 	}
 	if o.QueryErr != "" {
-		j.violate("multi-tier-query-fails", phase, "the multi-tier query fails: "+o.QueryErr, o)
+		j.violate(who+"multi-tier-query-fails", phase, "the multi-tier query fails: "+o.QueryErr, o)
 		return
 	}
 	for _, f := range j.e.files {
 		x := o.Files[f.Role]
 		if x.Seen == 0 || (j.e.lay.Size != "1B" && x.Distinct != f.NRows) {
-			j.violate("rows-invisible", phase, fmt.Sprintf("the multi-tier query does not see file %s (seen %d times, %d of %d rows)", f.Role, x.Seen, x.Distinct, f.NRows), o)
+			j.violate(who+"rows-invisible", phase, "the multi-tier query does not see every row: "+j.seen(f, x), o)
 		}
 	}
 }
 
 // final: after the further fault-free cycle
-func (j *judge) final(o *obs, phase string) {
+func (j *judge) final(o *obs, phase, who string) {
+	if o == nil {
+		return
+	}
 	for _, f := range j.e.files {
 		x := o.Files[f.Role]
-		if x.Hot != "ok" && x.Cold != "ok" {
+		if who == "" && x.Hot != "ok" && x.Cold != "ok" {
 			j.violate("content-unreadable", phase, fmt.Sprintf("no tier holds the complete content of %s (hot=%s cold=%s)", f.Role, x.Hot, x.Cold), o)
 		}
 	}
 	if o.QueryErr != "" {
-		j.violate("multi-tier-query-fails", phase, "the multi-tier query fails: "+o.QueryErr, o)
+		j.violate(who+"multi-tier-query-fails", phase, "the multi-tier query fails: "+o.QueryErr, o)
 		return
 	}
 	for _, f := range j.e.files {
@@ -798,13 +903,13 @@ func (j *judge) final(o *obs, phase string) {
 		rowsOK := j.e.lay.Size == "1B" || (x.Rows == f.NRows && x.Distinct == f.NRows)
 		switch {
 		case x.Seen == 0 || (j.e.lay.Size != "1B" && x.Distinct < f.NRows):
-			j.violate("rows-invisible", phase, fmt.Sprintf("the multi-tier query does not see file %s (seen %d times, %d of %d rows)", f.Role, x.Seen, x.Distinct, f.NRows), o)
+			j.violate(who+"rows-invisible", phase, "the multi-tier query does not see every row: "+j.seen(f, x), o)
 		case x.Seen > 1 || !rowsOK:
-			j.violate("rows-visible-twice", phase, fmt.Sprintf("the multi-tier query sees file %s %d times (%d rows returned for %d stored)", f.Role, x.Seen, x.Rows, f.NRows), o)
+			j.violate(who+"rows-visible-twice", phase, "the multi-tier query sees rows more than once: "+j.seen(f, x), o)
 		}
 	}
 	if len(o.Unexpected) > 0 {
-		j.violate("unexpected-file-visible", phase, "the multi-tier query sees files that are not data files: "+strings.Join(o.Unexpected, ","), o)
+		j.violate(who+"unexpected-file-visible", phase, "the multi-tier query sees files that are not data files: "+strings.Join(o.Unexpected, ","), o)
 	}
 }
 
@@ -859,25 +964,26 @@ func (e *env) siteLabel(s site) string {
 // ------------------------------------------------------------------ one case
 
 type caseDesc struct {
-	Layout string  `json:"layout"`
-	Kind   string  `json:"kind"`
-	Plans  []*plan `json:"cycles"` // injected cycles in order; a fault-free cycle follows
-	Restart bool   `json:"restart_after_error,omitempty"`
+	Layout  string  `json:"layout"`
+	Kind    string  `json:"kind"`
+	Plans   []*plan `json:"cycles"` // injected cycles in order; a fault-free cycle follows
+	Restart bool    `json:"restart_after_error,omitempty"`
 }
 
 type caseResult struct {
-	reached  bool   // every injected fault / crash point was actually reached
-	states   []string
-	logs     []cycleLog
-	faults   []string
-	bad      int
+	reached bool // every injected fault / crash point was actually reached
+	states  []string
+	logs    []cycleLog
+	faults  []string
+	bad     int
 }
 
 type stats struct {
-	cases, reached, bad                                  int64
+	cases, reached, bad                                   int64
 	transientDouble, crashStates, faultyCycles, reconcile int64
-	states                                               map[string]bool
-	byKind                                               map[string]int64
+	rowQueries, rowMemoHits, liveJudged, liveDiffers      int64
+	states                                                map[string]bool
+	byKind                                                map[string]int64
 }
 
 var st = stats{states: map[string]bool{}, byKind: map[string]int64{}}
@@ -892,10 +998,22 @@ func runCase(run *ev.Run, l layout, kind string, plans []*plan, restartAfterErro
 	for _, p := range plans {
 		res.faults = append(res.faults, p.Label)
 	}
+	if len(plans) == 0 {
+		res.faults = []string{"no-fault"}
+	}
 	j := &judge{run: run, e: e, faults: res.faults, cs: cd}
 	res.reached = true
-	p := newProc(e)
+	wrapCold := false
+	for _, pl := range plans {
+		for _, s := range pl.Sites {
+			if s.Kind == "W0" || s.Kind == "Wm" || s.Kind == "B" {
+				wrapCold = true
+			}
+		}
+	}
+	p := newProc(e, wrapCold)
 	for i, pl := range plans {
+		p.warm()
 		lg := p.cycle(pl)
 		res.logs = append(res.logs, lg)
 		phase := fmt.Sprintf("after-cycle-%d", i+1)
@@ -914,8 +1032,8 @@ func runCase(run *ev.Run, l layout, kind string, plans []*plan, restartAfterErro
 			o := observe(e)
 			st.crashStates++
 			res.states = append(res.states, o.key(e))
-			j.intermediate(o, "crash-state-"+phase)
-			p = newProc(e)
+			j.intermediate(o, "crash-state-"+phase, "")
+			p = newProc(e, wrapCold)
 		} else {
 			want := len(pl.Sites)
 			if pl.FailFS >= 0 {
@@ -933,7 +1051,13 @@ func runCase(run *ev.Run, l layout, kind string, plans []*plan, restartAfterErro
 			o := observe(e)
 			st.faultyCycles++
 			res.states = append(res.states, o.key(e))
-			j.intermediate(o, "faulty-cycle-finished-"+phase)
+			j.intermediate(o, "faulty-cycle-finished-"+phase, "")
+			if !restartAfterError {
+				if lo := p.liveObserve(o); lo != nil {
+					st.liveJudged++
+					j.intermediate(lo, "faulty-cycle-finished-"+phase, liveWho(lo, o))
+				}
+			}
 			for _, f := range e.files {
 				if o.Files[f.Role].Seen > 1 {
 					st.transientDouble++
@@ -941,10 +1065,11 @@ func runCase(run *ev.Run, l layout, kind string, plans []*plan, restartAfterErro
 				}
 			}
 			if restartAfterError {
-				p = newProc(e)
+				p = newProc(e, wrapCold)
 			}
 		}
 	}
+	p.warm()
 	lg := p.cycle(noFault())
 	res.logs = append(res.logs, lg)
 	for _, op := range lg.FS {
@@ -953,10 +1078,17 @@ func runCase(run *ev.Run, l layout, kind string, plans []*plan, restartAfterErro
 			break
 		}
 	}
-	p.close()
 	o := observe(e)
 	res.states = append(res.states, "final:"+o.key(e))
-	j.final(o, "after-further-fault-free-cycle")
+	j.final(o, "after-further-fault-free-cycle", "")
+	if lo := p.liveObserve(o); lo != nil {
+		st.liveJudged++
+		if lo.key(e) != o.key(e) || lo.QueryErr != o.QueryErr {
+			st.liveDiffers++
+		}
+		j.final(lo, "after-further-fault-free-cycle", liveWho(lo, o))
+	}
+	p.close()
 	res.bad = j.bad
 	st.cases++
 	st.byKind[kind]++
@@ -975,8 +1107,24 @@ func runCase(run *ev.Run, l layout, kind string, plans []*plan, restartAfterErro
 	return res
 }
 
+// liveWho names the observer; when the long-running handler answers with a read expression that differs from
+// the one a fresh handler builds for the same state, the root cause (a stale cached transform) is part of the name.
+func liveWho(live, fresh *obs) string {
+	if live.Expr != fresh.Expr {
+		return "long-running-handler(stale-read-expression):"
+	}
+	return "long-running-handler:"
+}
+
 var traceF *os.File
-var tObs, tRow time.Duration
+var tObs time.Duration
+
+type memoVal struct {
+	vals []int64
+	err  string
+}
+
+var rowMemo = map[string]memoVal{}
 
 var goldenLabels = map[*cycleLog][]string{}
 
@@ -1088,7 +1236,7 @@ func main() {
 	for try := 0; ; try++ {
 		duck, err = database.New(&database.Config{MaxConnections: 2, MemoryLimit: "512MB", ThreadCount: 1, PreserveInsertionOrder: true,
 			TempDirectory: filepath.Join(scratch, "spill"), LocalStorageRoot: scratch}, zerolog.Nop())
-		if err == nil || try >= 8 || !strings.Contains(err.Error(), "deadline exceeded") {
+		if err == nil || try >= 8 || !(strings.Contains(err.Error(), "deadline exceeded") || strings.Contains(err.Error(), "Interrupted")) {
 			break
 		}
 	}
@@ -1183,12 +1331,13 @@ func main() {
 		}
 	}
 	if os.Getenv("VERIF_C12_TIMING") != "" {
-		fmt.Fprintf(os.Stderr, "shard %d: %d cases in %v (query part of observe %v, of which row query %v)\n", shard, st.cases, time.Since(t0), tObs, tRow)
+		fmt.Fprintf(os.Stderr, "shard %d: %d cases in %v (query part of observe %v)\n", shard, st.cases, time.Since(t0), tObs)
 	}
 	pprof.StopCPUProfile()
 	duck.Close()
 	counters := map[string]int64{"cases": st.cases, "reached": st.reached, "bad": st.bad, "crash_states": st.crashStates,
-		"faulty_cycles": st.faultyCycles, "transient_double": st.transientDouble, "recovery_removed_hot_copy": st.reconcile}
+		"faulty_cycles": st.faultyCycles, "transient_double": st.transientDouble, "recovery_removed_hot_copy": st.reconcile,
+		"row_queries": st.rowQueries, "row_memo": st.rowMemoHits, "live_judged": st.liveJudged, "live_differs": st.liveDiffers}
 	for k, v := range st.byKind {
 		counters["kind:"+k] = v
 	}
@@ -1256,6 +1405,9 @@ func makeTemplates() {
 func atoms(faults []string) []string {
 	var a []string
 	for _, f := range faults {
+		if f == "no-fault" { // the empty fault set
+			continue
+		}
 		a = append(a, strings.Split(f, " + ")...)
 	}
 	return a
@@ -1315,7 +1467,11 @@ func parent(run *ev.Run, thorough bool) {
 		if dominated {
 			continue
 		}
-		key := it.rv.Oracle + "|" + strings.Join(it.atoms, " + ")
+		fs := strings.Join(it.atoms, " + ")
+		if fs == "" {
+			fs = "no-fault"
+		}
+		key := it.rv.Oracle + "|" + fs
 		c := classes[key]
 		if c == nil {
 			c = &class{best: it, lays: map[string]bool{}}
@@ -1359,6 +1515,10 @@ func parent(run *ev.Run, thorough bool) {
 	run.Coverage["states_with_transient_double_visibility_after_a_finished_faulty_cycle"] = counters["transient_double"]
 	run.Coverage["recovery_cycles_that_removed_a_hot_copy"] = counters["recovery_removed_hot_copy"]
 	run.Coverage["raw_violation_tuples"] = len(raw)
+	run.Coverage["states_also_judged_through_the_long_running_handler"] = counters["live_judged"]
+	run.Coverage["final_states_where_the_long_running_handler_answers_differently_from_a_fresh_one"] = counters["live_differs"]
+	run.Coverage["row_level_statements_executed"] = counters["row_queries"]
+	run.Coverage["row_level_statements_answered_from_an_identical_earlier_execution"] = counters["row_memo"]
 	run.Coverage["samples"] = samples
 	lay := "file sizes {1 byte, one parquet file >= 70 KB (3 streamed chunks)} x {no, one} already-cold sibling x {no, one} hot sibling that stays hot"
 	if thorough {
